@@ -307,3 +307,36 @@ pub fn future_as_null(v: &RValue) -> RValue {
         x => x.clone(),
     }
 }
+
+/// A hand-built spelling of a decoder-shaped value that `annotate_type` maps back to the same value:
+/// record fields in another order, absent null/opt/reserved fields, a non-negative `int` given as `Nat`,
+/// a blob given as a vector of `Nat8`, `Null` for an absent option, variant index left at 0.
+pub fn hand_built(rng: &mut Rng, v: &candid::IDLValue) -> candid::IDLValue {
+    use candid::types::value::{IDLField, VariantValue};
+    use candid::IDLValue as V;
+    match v {
+        V::Int(i) if i.0 >= 0.into() && rng.chance(1, 2) => V::Nat(candid::Nat(i.0.to_biguint().unwrap())),
+        V::Blob(b) if rng.chance(1, 2) => V::Vec(b.iter().map(|x| V::Nat8(*x)).collect()),
+        V::None if rng.chance(1, 3) => V::Null,
+        V::Opt(x) => V::Opt(Box::new(hand_built(rng, x))),
+        V::Vec(xs) => V::Vec(xs.iter().map(|x| hand_built(rng, x)).collect()),
+        V::Record(fs) => {
+            let mut out: Vec<IDLField> = Vec::new();
+            for f in fs {
+                if matches!(f.val, V::None | V::Null | V::Reserved) && rng.chance(1, 3) {
+                    continue;
+                }
+                out.push(IDLField { id: f.id.clone(), val: hand_built(rng, &f.val) });
+            }
+            if rng.chance(2, 3) {
+                rng.shuffle(&mut out);
+            }
+            V::Record(out)
+        }
+        V::Variant(x) => V::Variant(VariantValue(
+            Box::new(IDLField { id: x.0.id.clone(), val: hand_built(rng, &x.0.val) }),
+            if rng.bool() { 0 } else { x.1 },
+        )),
+        x => x.clone(),
+    }
+}
